@@ -239,6 +239,35 @@ class IDSpace:
 GENERIC = {("IDSpace", "from_string")}
 
 
+def _translated():
+    import gen_pytrans
+    return {c: set(ms) for c, ms in gen_pytrans.METHODS.items()}
+
+
+class _Lazy(dict):
+    def get(self, k, d=None):
+        if not self:
+            self.update(_translated())
+        return dict.get(self, k, d)
+
+
+TRANSLATED = _Lazy()
+
+
+def _golden_constants():
+    import os
+    p = os.path.join(os.path.dirname(os.path.abspath(__file__)), "..", "coq", "GenGolden", "IdSpaceGen.v")
+    out = {}
+    with open(p) as f:
+        for m in re.finditer(r"Definition (\w+) : N := (\d+)\.", f.read()):
+            out[m.group(1)] = int(m.group(2))
+    return out
+
+
+def _placeholder_names(node):
+    return [n.id for n in ast.walk(node) if isinstance(n, ast.Name) and n.id.startswith("K_")]
+
+
 def _const_int_expr(node):
     """Value of a constant integer expression (int literals with + - * <<), else None."""
     if isinstance(node, ast.Constant) and isinstance(node.value, int) and not isinstance(node.value, bool):
@@ -393,6 +422,7 @@ def gen_idspace(repo, out):
     exp_tree = ast.parse(EXPECTED)
     env = {}
     table = None
+    soft = []
     for exp_cls in exp_tree.body:
         cls = find_class(tree, exp_cls.name)
         # decorator: @dataclass(frozen=True)  (== and hashing of spaces rely on it)
@@ -409,7 +439,25 @@ def gen_idspace(repo, out):
         for name in eattrs:
             _match(attrs[name], eattrs[name], env, f"{cls.name}.{name} default")
         for name, efn in efuncs.items():
-            _match(funcs[name], efn, env, f"{cls.name}.{name}")
+            local = {}
+            try:
+                _match(funcs[name], efn, local, f"{cls.name}.{name}")
+            except ExtractError as e:
+                # A method that harness/gen_pytrans.py TRANSLATES may be rewritten: Proofs/IdSpaceTrEq.v proves the model
+                # equal to the translation of the current text, so its meaning is still tied to the model.  The literals the
+                # model takes from this method then come from the last validated table (the proof is about the model with
+                # exactly those).  Everything else stays fail-closed.
+                if name not in TRANSLATED.get(cls.name, ()):
+                    raise
+                golden = _golden_constants()
+                names = _placeholder_names(efn)
+                missing = [k for k in names if k[2:] not in golden]
+                expect(not missing, f"{e}  (and no validated value for {missing})")
+                local = {k: golden[k[2:]] for k in names}
+                soft.append((f"{cls.name}.{name}", str(e).splitlines()[0][:200]))
+            for k, v in local.items():
+                expect(k not in env, f"internal: duplicate placeholder {k}")
+                env[k] = v
     n_sql = _sql_filter_sites(find_class(tree, "IDManager"))
 
     t = HEADER
@@ -423,4 +471,9 @@ def gen_idspace(repo, out):
     t += "Definition from_string_table : list (list (list N) * (N * bool)) :=\n  " + coq_list(rows).replace("); (", ");\n   (") + ".\n"
     t += f"\n(* number of `{SQL_FILTER}` filters in IDManager fed with (mask, begin, end - 1) *)\n"
     t += f"Definition sql_filter_sites : N := {n_sql}.\n"
+    if soft:
+        t += "(* rewritten methods, covered by the translation (Proofs/IdSpaceTrEq.v); their literals are the last validated ones:\n"
+        t += "".join(f"   {m}: {msg}\n" for m, msg in soft).replace("*)", "* )") + "*)\n"
+        import gen_tables
+        gen_tables.SOFT.append(("gen_idspace", "Props/C10tr.v", [m for m, _ in soft]))
     out.add("IdSpaceGen.v", t)
